@@ -297,13 +297,6 @@ class _InMemoryBackend(backend.Backend):
     """Constructor."""
     super().__init__()
 
-    if name is None or name not in _in_memory_results:
-      study = _InMemoryResult(name, num_examples)
-      if name is not None:
-        _in_memory_results[name] = study
-    else:
-      study = _in_memory_results[name]
-
     if group is None:
       group = str(threading.get_ident())
 
@@ -312,23 +305,34 @@ class _InMemoryBackend(backend.Backend):
           f'\'metrics_to_optimize\' should include only 1 metric as '
           f'multi-objective optimization is not supported by {algorithm!r}.')
 
-    # NOTE(daiyip): algorithm can continue if it's already set up with the same
-    # DNASpec, or we will setup the algorithm with input DNASpec.
-    if algorithm.dna_spec is None:
-      algorithm.setup(dna_spec)
-    elif symbolic.ne(algorithm.dna_spec, dna_spec):
-      raise ValueError(
-          f'{algorithm!r} has been set up with a different DNASpec. '
-          f'Existing: {algorithm.dna_spec!r}, New: {dna_spec!r}.')
+    # NOTE: Workers that share a study (by name) usually share the algorithm
+    # and the early stopping policy too. The get-or-create of the study and
+    # the one-time setup of the shared objects must not interleave among them.
+    with _in_memory_results_lock:
+      if name is None or name not in _in_memory_results:
+        study = _InMemoryResult(name, num_examples)
+        if name is not None:
+          _in_memory_results[name] = study
+      else:
+        study = _in_memory_results[name]
 
-    if early_stopping_policy:
-      if early_stopping_policy.dna_spec is None:
-        early_stopping_policy.setup(dna_spec)
-      elif early_stopping_policy.dna_spec != dna_spec:
+      # NOTE(daiyip): algorithm can continue if it's already set up with the
+      # same DNASpec, or we will setup the algorithm with input DNASpec.
+      if algorithm.dna_spec is None:
+        algorithm.setup(dna_spec)
+      elif symbolic.ne(algorithm.dna_spec, dna_spec):
         raise ValueError(
-            f'{early_stopping_policy!r} has been set up with a different '
-            f'DNASpec. Existing: {early_stopping_policy.dna_spec!r}, '
-            f'New: {dna_spec!r}.')
+            f'{algorithm!r} has been set up with a different DNASpec. '
+            f'Existing: {algorithm.dna_spec!r}, New: {dna_spec!r}.')
+
+      if early_stopping_policy:
+        if early_stopping_policy.dna_spec is None:
+          early_stopping_policy.setup(dna_spec)
+        elif early_stopping_policy.dna_spec != dna_spec:
+          raise ValueError(
+              f'{early_stopping_policy!r} has been set up with a different '
+              f'DNASpec. Existing: {early_stopping_policy.dna_spec!r}, '
+              f'New: {dna_spec!r}.')
 
     if kwargs:
       logging.warning(
@@ -389,3 +393,7 @@ class _InMemoryBackend(backend.Backend):
 
 # Global dictionary for locally sampled in-memory results by name.
 _in_memory_results: Dict[str, _InMemoryResult] = {}
+
+# Lock for the get-or-create of a named study (and the one-time setup of the
+# algorithm/early stopping policy shared by its workers).
+_in_memory_results_lock = threading.Lock()
